@@ -17,6 +17,7 @@ import (
 
 	"github.com/janelia-flyem/dvid/datastore"
 	"github.com/janelia-flyem/dvid/dvid"
+	"github.com/janelia-flyem/dvid/server"
 
 	"verif/harness/dv"
 	"verif/harness/lib"
@@ -69,6 +70,12 @@ type jquery struct {
 	Thr    int      `json:"thr,omitempty"`
 	Skip   int      `json:"skip,omitempty"`
 	Labels []uint64 `json:"labels,omitempty"`
+	Spans  [][4]int `json:"spans,omitempty"` // roi: (z, y, x0, x1) in block coordinates
+}
+
+type jlabels struct {
+	L     uint64 `json:"l"`
+	Elems []elem `json:"elems"`
 }
 
 type jop struct {
@@ -81,14 +88,12 @@ type jop struct {
 	Labels  []uint64 `json:"labels,omitempty"` // merged bodies / cleaved supervoxels
 	B       pos      `json:"b,omitempty"`
 	Paint   []jpaint `json:"paint,omitempty"` // full content of the block (runs with label 0 included)
+	LabelLists []jlabels `json:"labellists,omitempty"` // POST labels
 	Force   bool     `json:"force,omitempty"` // re-emit every persistent query after this op
 	Queries []jquery `json:"queries,omitempty"`
 }
 
 type jcase struct {
-	// Kind "" = ordinary history; "known-mutate" = the stored history of finding C13-mutate-supervoxel-ids,
-	// printed as zKnownMutate and judged by the dedicated class 20 of Model/AnnotRun.v
-	Kind   string   `json:"kind,omitempty"`
 	Paint0 []jpaint `json:"paint0"`
 	Q0     []jquery `json:"q0,omitempty"`
 	Ops    []jop    `json:"ops"`
@@ -324,6 +329,7 @@ type hist struct {
 	obs0   []string
 	steps  []string
 	size   int
+	rois   int // roi instances created so far in this repo
 }
 
 var repoSeq int
@@ -554,6 +560,23 @@ func (h *hist) observe(force bool, qs []jquery) []string {
 		sz := fmt.Sprintf("%d_%d_%d", q.Size[0], q.Size[1], q.Size[2])
 		off := fmt.Sprintf("%d_%d_%d", q.Off[0], q.Off[1], q.Off[2])
 		switch q.Q {
+		case "roi":
+			// a fresh roi instance (same block size as the annotation) holding the query's spans
+			h.rois++
+			name := fmt.Sprintf("roi%d", h.rois)
+			if err := dv.NewInstance(h.uuid, "roi", name, map[string]string{"BlockSize": "16,16,16"}); err != nil {
+				fatal("roi instance: %v", err)
+			}
+			sp, _ := json.Marshal(q.Spans)
+			if r := dv.Post(h.url(name, "roi"), sp); r.Status != 200 {
+				fatal("POST roi: %d %s", r.Status, r.Body)
+			}
+			es := h.getElems(h.url("ann", "roi/"+name))
+			ss := make([]string, len(q.Spans))
+			for i, x := range q.Spans {
+				ss[i] = fmt.Sprintf("(%s,%s,%s,%s)", z(x[0]), z(x[1]), z(x[2]), z(x[3]))
+			}
+			items = append(items, fmt.Sprintf("zRoi [%s] %s", strings.Join(ss, ";"), coqElems(es)))
 		case "region":
 			es := h.getElems(h.url("ann", "elements/"+sz+"/"+off))
 			items = append(items, fmt.Sprintf("zRegion %s %s %s", q.Off.coq(), q.Size.coq(), coqElems(es)))
@@ -709,11 +732,52 @@ func (h *hist) exec(op *jop) (string, int) {
 	case "reload":
 		term = "zReload " + coqBlocks(op.Blocks)
 		cls = h.execReload(op)
+	case "labels":
+		// POST labels: raw ingest of label lists (each value is a JSON string holding the array)
+		m := map[string]string{}
+		var ls []string
+		for _, b := range op.LabelLists {
+			m[u(b.L)] = string(wireElems(b.Elems))
+			ls = append(ls, fmt.Sprintf("(%d,%s)", b.L, coqElems(b.Elems)))
+		}
+		req, _ := json.Marshal(m)
+		term = "zLabels [" + strings.Join(ls, ";") + "]"
+		cls = classOf(dv.Post(h.url("ann", "labels"), req))
 	case "merge":
 		label = true
 		term = fmt.Sprintf("zMerge %d %s", op.Target, coqU64s(op.Labels))
 		req, _ := json.Marshal(append([]uint64{op.Target}, op.Labels...))
 		cls = classOf(dv.Post(h.url("lm", "merge"), req))
+	case "split":
+		// body split of the x-interval [P[0], Q[0]] (all y, z of the volume): sparse volume of bs*bs runs
+		label = true
+		a, b := op.P[0], op.Q[0]
+		var buf bytes.Buffer
+		buf.WriteByte(0) // dvid.EncodingBinary
+		buf.WriteByte(3) // dimensions
+		buf.WriteByte(0) // runs along x
+		buf.WriteByte(0)
+		binary.Write(&buf, binary.LittleEndian, uint32(0))
+		binary.Write(&buf, binary.LittleEndian, uint32(bs*bs))
+		for zz := 0; zz < bs; zz++ {
+			for yy := 0; yy < bs; yy++ {
+				binary.Write(&buf, binary.LittleEndian, [4]int32{int32(a), int32(yy), int32(zz), int32(b - a + 1)})
+			}
+		}
+		r := dv.Post(h.url("lm", fmt.Sprintf("split/%d", op.Target)), buf.Bytes())
+		cls = classOf(r)
+		var m struct{ Label uint64 }
+		if cls == 0 {
+			if err := json.Unmarshal(r.Body, &m); err != nil || m.Label == 0 {
+				cls = 2
+			}
+		}
+		h.addKnown(m.Label)
+		var bl []string
+		for bx := floorDiv(a, bs); bx <= floorDiv(b, bs); bx++ {
+			bl = append(bl, pos{bx, 0, 0}.coq())
+		}
+		term = fmt.Sprintf("zSplit %d %d [%s] [(%s,%s)]", op.Target, m.Label, strings.Join(bl, ";"), z(a), z(b))
 	case "cleave":
 		label = true
 		in := map[uint64]bool{}
@@ -743,7 +807,20 @@ func (h *hist) exec(op *jop) (string, int) {
 		if op.Op == "mutate" {
 			q, name = "?mutate=true", "zMutate"
 		}
-		term = fmt.Sprintf("%s %s %s", name, op.B.coq(), coqPaint(op.Paint))
+		// the request carries supervoxel ids; the Coq term carries the body labels they map to
+		// (fresh ids map to themselves, kept supervoxels to their current body)
+		svBody := map[uint64]uint64{}
+		for i := range h.sv {
+			svBody[h.sv[i]] = h.body[i]
+		}
+		bodyPaint := make([]jpaint, len(op.Paint))
+		for i, p := range op.Paint {
+			bodyPaint[i] = p
+			if b, ok := svBody[p.L]; ok {
+				bodyPaint[i].L = b
+			}
+		}
+		term = fmt.Sprintf("%s %s %s", name, op.B.coq(), coqPaint(bodyPaint))
 		cls = classOf(dv.Post(h.url("lm", fmt.Sprintf("raw/0_1_2/16_16_16/%d_0_0%s", bs*op.B[0], q)), volume(op.Paint, bs*op.B[0], bs)))
 		for _, p := range op.Paint {
 			h.addKnown(p.L)
@@ -987,7 +1064,76 @@ func (g *gstate) vary(e elem) (elem, bool) {
 	}
 }
 
-type flags struct{ kindChange, dropCarry, crossBlock, sameBody, missing, link, partner bool }
+type flags struct {
+	kindChange, dropCarry, crossBlock, sameBody, missing, link, partner bool
+	hostile string // ill-formed request that must be rejected with 400 and change nothing
+}
+
+// genHostile: requests the server must reject before writing anything (C13-7-fix, C13-8-fix),
+// plus the no-op move whose source equals its destination.
+func (g *gstate) genHostile(f *flags) *jop {
+	used := map[pos]bool{}
+	fresh := func() (pos, bool) { return g.free(used, g.randPos) }
+	switch g.r.Intn(6) {
+	case 0: // two elements at one position
+		if p, ok := fresh(); ok {
+			f.hostile = "post two elements at one position"
+			a, b := g.newElem(p), g.newElem(p)
+			op := &jop{Op: "post", Elems: []elem{a, b}}
+			if q, ok := fresh(); ok && g.r.Bool() {
+				op.Elems = append([]elem{g.newElem(q)}, op.Elems...)
+			}
+			return op
+		}
+	case 1: // a tag twice
+		if p, ok := fresh(); ok {
+			f.hostile = "post element with a repeated tag"
+			e := g.newElem(p)
+			t := 1 + g.r.Intn(4)
+			e.Tags = []int{t, 1 + g.r.Intn(4), t}
+			return &jop{Op: "post", Elems: []elem{e}}
+		}
+	case 2: // two elements at one position, one of them an existing element
+		if len(g.els) >= 1 {
+			f.hostile = "post two elements at one position"
+			e := g.els[g.r.Intn(len(g.els))]
+			return &jop{Op: "post", Elems: []elem{cp(e), g.newElem(e.Pos)}}
+		}
+	case 3: // onto an occupied position
+		if len(g.els) >= 2 {
+			f.hostile = "move onto an occupied position"
+			idx := g.shuffled(len(g.els))
+			return &jop{Op: "move", P: g.els[idx[0]].Pos, Q: g.els[idx[1]].Pos}
+		}
+	case 4: // source = destination: accepted, nothing changes
+		if len(g.els) >= 1 {
+			f.hostile = "move with source = destination (no-op)"
+			p := g.els[g.r.Intn(len(g.els))].Pos
+			return &jop{Op: "move", P: p, Q: p}
+		}
+	case 5: // POST blocks with an element outside its block, or twice the same position
+		if len(g.els) >= 1 {
+			e := g.els[g.r.Intn(len(g.els))]
+			b := blockOf(e.Pos)
+			var cur []elem
+			for _, x := range g.els {
+				if blockOf(x.Pos) == b {
+					cur = append(cur, cp(x))
+				}
+			}
+			if g.r.Bool() {
+				f.hostile = "post blocks with an element outside its block"
+				out := g.newElem(pos{e.Pos[0] + bs, e.Pos[1], e.Pos[2]})
+				cur = append(cur, out)
+			} else {
+				f.hostile = "post blocks with two elements at one position"
+				cur = append(cur, g.newElem(e.Pos))
+			}
+			return &jop{Op: "reload", Blocks: []jblock{{B: b, Elems: cur}}}
+		}
+	}
+	return nil
+}
 
 func (g *gstate) genPostNew() *jop {
 	n := 1 + g.r.Intn(4)
@@ -1332,6 +1478,73 @@ func (g *gstate) genMerge() *jop {
 	return op
 }
 
+// genLabels: POST labels with the lists the label index must hold anyway (relationship-free, any order)
+func (g *gstate) genLabels() *jop {
+	by := map[uint64][]elem{}
+	for _, e := range g.els {
+		if l := g.h.bodyAt(e.Pos); l != 0 {
+			c := cp(e)
+			c.Rels = nil
+			by[l] = append(by[l], c)
+		}
+	}
+	if len(by) == 0 {
+		return nil
+	}
+	var ls []uint64
+	for l := range by {
+		ls = append(ls, l)
+	}
+	sort.Slice(ls, func(i, j int) bool { return ls[i] < ls[j] })
+	op := &jop{Op: "labels"}
+	for _, i := range g.shuffled(len(ls)) {
+		l := ls[i]
+		es := by[l]
+		sh := make([]elem, len(es))
+		for k, j := range g.shuffled(len(es)) {
+			sh[k] = es[j]
+		}
+		op.LabelLists = append(op.LabelLists, jlabels{L: l, Elems: sh})
+		if len(op.LabelLists) == 2 {
+			break
+		}
+	}
+	if g.r.Chance(0.3) {
+		op.LabelLists = append(op.LabelLists, jlabels{L: 0, Elems: []elem{g.newElem(pos{1, 1, 1})}}) // label 0 is skipped by the server
+	}
+	return op
+}
+
+// genSplit: a proper part of one body, an x-interval inside one of its runs
+func (g *gstate) genSplit() *jop {
+	bl := g.bodies()
+	if len(bl) == 0 {
+		return nil
+	}
+	body := bl[g.r.Intn(len(bl))]
+	runs := runsOf(func(x int) bool { return g.h.body[x-xmin] == body })
+	total := 0
+	for _, r := range runs {
+		total += r[1] - r[0] + 1
+	}
+	if total < 2 {
+		return nil
+	}
+	r := runs[g.r.Intn(len(runs))]
+	a := r[0] + g.r.Intn(r[1]-r[0]+1)
+	b := a + g.r.Intn(r[1]-a+1)
+	if g.r.Chance(0.3) { // a whole run, or up to a block border
+		a, b = r[0], r[1]
+	}
+	if b-a+1 >= total {
+		if a == b {
+			return nil
+		}
+		b--
+	}
+	return &jop{Op: "split", Target: body, P: pos{a, 0, 0}, Q: pos{b, 0, 0}}
+}
+
 func (g *gstate) genCleave() *jop {
 	var cands []uint64
 	svs := map[uint64][]uint64{}
@@ -1368,16 +1581,8 @@ func (g *gstate) nextFresh() uint64 {
 }
 
 func (g *gstate) genMutate() *jop {
-	var cands []int
-	for _, bx := range g.mutable {
-		ok := true
-		for x := bx * bs; x < (bx+1)*bs; x++ {
-			ok = ok && g.h.sv[x-xmin] == g.h.body[x-xmin]
-		}
-		if ok {
-			cands = append(cands, bx)
-		}
-	}
+	// any block that holds data: the posted array carries supervoxel ids, also of merged / cleaved bodies
+	cands := append([]int(nil), g.mutable...)
 	if len(cands) == 0 {
 		return nil
 	}
@@ -1386,9 +1591,9 @@ func (g *gstate) genMutate() *jop {
 	changed := false
 	x := bx * bs
 	for x < (bx+1)*bs {
-		l := g.h.body[x-xmin]
+		l := g.h.sv[x-xmin]
 		e := x
-		for e+1 < (bx+1)*bs && g.h.body[e+1-xmin] == l {
+		for e+1 < (bx+1)*bs && g.h.sv[e+1-xmin] == l {
 			e++
 		}
 		pieces := [][2]int{{x, e}}
@@ -1462,7 +1667,14 @@ func (g *gstate) genQuery() jquery {
 		}
 		return off, size
 	}
-	switch g.r.Intn(10) {
+	switch g.r.Intn(11) {
+	case 10:
+		q := jquery{Q: "roi"}
+		for n := 1 + g.r.Intn(3); n > 0; n-- {
+			x0 := g.r.Pick(-3, -2, -1, 0, 1)
+			q.Spans = append(q.Spans, [4]int{g.r.Pick(0, 0, 0, -1, 1), g.r.Pick(0, 0, 0, -1, 1), x0, x0 + g.r.Intn(4)})
+		}
+		return q
 	case 0, 1, 2:
 		o, s := box()
 		return jquery{Q: "region", Off: o, Size: s}
@@ -1489,7 +1701,25 @@ func (g *gstate) genQuery() jquery {
 func (g *gstate) genOp(f *flags) *jop {
 	for {
 		var op *jop
-		w := g.r.Intn(107)
+		w := g.r.Intn(124)
+		if w >= 121 {
+			if op = g.genLabels(); op != nil {
+				return op
+			}
+			continue
+		}
+		if w >= 114 {
+			if op = g.genSplit(); op != nil {
+				return op
+			}
+			continue
+		}
+		if w >= 107 {
+			if op = g.genHostile(f); op != nil {
+				return op
+			}
+			continue
+		}
 		if w >= 82 && w < 90 && g.r.Chance(0.4) {
 			w = 90 // a cleave instead of a merge (falls back to another op when no body has two supervoxels)
 		}
@@ -1614,6 +1844,12 @@ func countOp(run *lib.Run, op *jop, cls int, f flags) {
 	if f.dropCarry {
 		run.Count("post:drop+add same tag in one block")
 	}
+	if f.hostile != "" {
+		run.Count("hostile: " + f.hostile)
+		if (cls == 1) != (f.hostile != "move with source = destination (no-op)") {
+			run.Count("hostile request NOT answered as expected")
+		}
+	}
 }
 
 // runStored re-executes a stored history exactly
@@ -1635,12 +1871,7 @@ func runStored(run *lib.Run, kind string, jc jcase) {
 			break
 		}
 	}
-	term := h.term()
-	if jc.Kind == "known-mutate" {
-		kind = "known:mutate-supervoxel-ids"
-		term = "(zKnownMutate" + strings.TrimPrefix(term, "(zCase")
-	}
-	run.Add(kind, term, jc, opKey(jc.Ops))
+	run.Add(kind, h.term(), jc, opKey(jc.Ops))
 }
 
 func runRandom(run *lib.Run, r *lib.Rand, nops int) {
@@ -1701,12 +1932,39 @@ func corpus() []jcase {
 			{Op: "move", P: pos{12, 15, 0}, Q: pos{15, 0, 15}},
 			{Op: "delete", P: pos{-1, 15, 15}, Queries: []jquery{{Q: "region", Off: all, Size: pos{40, 24, 24}}}},
 		}},
-		// (iv) recorded finding C13-mutate-supervoxel-ids (findings/C13.json): a voxel edit of a block whose
-		// supervoxels were merged; mutateBlock reads the supervoxel ids of the event as body labels
-		{Kind: "known-mutate", Paint0: pt, Ops: []jop{
+		// (iv) a voxel edit of a block whose supervoxels were merged (the block event carries supervoxel ids,
+		// the handler must file elements under body labels: repaired by C13-6-fix)
+		{Paint0: pt, Ops: []jop{
 			{Op: "post", Elems: []elem{{Pos: pos{9, 1, 1}, Kind: 4}}},
 			{Op: "merge", Target: 1, Labels: []uint64{2}},
 			{Op: "mutate", B: pos{0, 0, 0}, Paint: []jpaint{{0, 7, 1}, {8, 15, 4993}}, Force: true},
+		}},
+		// (v) ill-formed requests: each must be answered 400 and change nothing (C13-7-fix, C13-8-fix)
+		{Paint0: pt, Ops: []jop{
+			{Op: "post", Elems: []elem{{Pos: pos{4, 4, 4}, Kind: 2, Tags: []int{1}}, {Pos: pos{20, 4, 4}, Kind: 1, Tags: []int{2}}}},
+			{Op: "post", Elems: []elem{{Pos: pos{5, 5, 5}, Kind: 1}, {Pos: pos{6, 5, 5}, Kind: 1}, {Pos: pos{5, 5, 5}, Kind: 2}}},
+			{Op: "post", Elems: []elem{{Pos: pos{6, 6, 6}, Kind: 4, Tags: []int{1, 2, 1}}}},
+			{Op: "post", Elems: []elem{{Pos: pos{7, 7, 7}, Kind: 3, Rels: []rel{{Rel: 4, To: pos{7, 7, 7}}}}}}, // accepted (upstream fixtures relate elements to themselves)
+			{Op: "move", P: pos{7, 7, 7}, Q: pos{27, 7, 7}},                                                          // rejected: the relationship cannot follow
+			{Op: "delete", P: pos{7, 7, 7}},
+			{Op: "move", P: pos{4, 4, 4}, Q: pos{20, 4, 4}},
+			{Op: "move", P: pos{4, 4, 4}, Q: pos{5, 4, 4}},
+			{Op: "move", P: pos{5, 4, 4}, Q: pos{20, 4, 4}},
+			{Op: "move", P: pos{5, 4, 4}, Q: pos{5, 4, 4}},
+			{Op: "post", Elems: []elem{{Pos: pos{8, 8, 8}, Kind: 3, Rels: []rel{{Rel: 4, To: pos{-9, 9, 9}}}}}},
+			{Op: "move", P: pos{8, 8, 8}, Q: pos{-9, 9, 9}},
+			{Op: "delete", P: pos{8, 8, 8}},
+			{Op: "reload", Blocks: []jblock{{B: pos{0, 0, 0}, Elems: []elem{{Pos: pos{5, 4, 4}, Kind: 2, Tags: []int{1}}, {Pos: pos{16, 4, 4}, Kind: 1}}}}},
+			{Op: "reload", Blocks: []jblock{{B: pos{0, 0, 0}, Elems: []elem{{Pos: pos{5, 4, 4}, Kind: 2, Tags: []int{1}}, {Pos: pos{5, 4, 4}, Kind: 1}}}}, Force: true},
+		}},
+		// (vi) body split (labelmap /split enabled through the server configuration): across a block border
+		{Paint0: pt, Ops: []jop{
+			{Op: "post", Elems: []elem{{Pos: pos{-2, 1, 1}, Kind: 2}, {Pos: pos{-9, 1, 1}, Kind: 1}, {Pos: pos{5, 1, 1}, Kind: 1}, {Pos: pos{2, 15, 0}, Kind: 4}, {Pos: pos{5, 16, 1}, Kind: 3}}},
+			{Op: "merge", Target: 1, Labels: []uint64{5}},
+			{Op: "split", Target: 1, P: pos{-4, 0, 0}, Q: pos{3, 0, 0}, Force: true},
+			{Op: "split", Target: 1, P: pos{5, 0, 0}, Q: pos{5, 0, 0}, Force: true, Queries: []jquery{
+				{Q: "roi", Spans: [][4]int{{0, 0, -1, 0}, {1, 0, 0, 0}, {0, 1, -2, 2}}}}},
+			{Op: "labels", LabelLists: []jlabels{{L: 1, Elems: []elem{{Pos: pos{-9, 1, 1}, Kind: 1}}}, {L: 0, Elems: []elem{{Pos: pos{1, 1, 1}, Kind: 1}}}}, Force: true},
 		}},
 	}
 }
@@ -1720,6 +1978,14 @@ func main() {
 	dv.Quiet()
 	dv.Open()
 	defer dv.Close()
+	// the labelmap /split endpoint is off unless the server configuration allows it
+	cfgFile := os.TempDir() + "/c13-server.toml"
+	if err := os.WriteFile(cfgFile, []byte("[server]\nallowLabelmapSplit = true\n"), 0o644); err != nil {
+		fatal("can't write %s: %v", cfgFile, err)
+	}
+	if err := server.LoadConfig(cfgFile); err != nil || !server.AllowLabelmapSplit() {
+		fatal("can't enable labelmap split: %v", err)
+	}
 
 	rule := "distinct op sequences"
 	if o.Replay != "" {
@@ -1731,9 +1997,9 @@ func main() {
 		}
 		runStored(run, "history", jc)
 	} else {
-		n := 14
+		n := 16
 		if o.Thorough() {
-			n = 121
+			n = 123
 		}
 		if o.N > 0 {
 			n = o.N
